@@ -65,7 +65,7 @@ func (fr *frame) get(key ssa.Value) value {
 	if r, ok := fr.env[key]; ok {
 		return r
 	}
-	panic(fmt.Sprintf("get: no value for %T: %v", key, key.Name()))
+	panic(fmt.Sprintf("get: no value for %T: %v in %s block %d", key, key.Name(), fr.fn, fr.block.Index))
 }
 
 func (fr *frame) set(k ssa.Value, v value) { fr.m.setEnv(fr, k, v) }
@@ -289,6 +289,7 @@ func (m *Machine) symbolicIf(fr *frame, instr *ssa.If, c *term.Term) {
 			succ = 0
 		}
 		fr.prevBlock, fr.block = blk, blk.Succs[succ]
+		fr.phisDone = false
 	}
 	// Replaying a recorded prefix (only top-level events are recorded).
 	if m.mergeLvl == 0 && m.decPos < len(m.decs) {
@@ -416,6 +417,7 @@ func (m *Machine) tryMerge(fr *frame, instr *ssa.If, c *term.Term) bool {
 		m.rollback(cp)
 		m.truncPC(pcLen)
 		fr.block, fr.prevBlock = blk, nil
+		fr.phisDone = false
 		fr.defers = savedDefers
 		fr.result = nil
 		m.depth = savedDepth
